@@ -290,3 +290,23 @@ func VpC13_Chunkings(a []int) {
 	}
 	vpReach("end")
 }
+
+// VpC13_Vec: one status vector chunk whose 14 symbol bits are all symbolic
+// (a[0] = 0: one-bit symbols, 1: two-bit symbols), status count a[1], followed
+// by a[2] delta octets; header fields and delta octets symbolic.
+func VpC13_Vec(a []int) {
+	w := vpU16()&0x3fff | 0x8000
+	if a[0] == 1 {
+		w |= 0x4000
+	}
+	count := a[1]
+	hdr := vpBytes(20)
+	deltas := vpBytes(a[2])
+	b := vpC13Packet([]uint16{w}, count, hdr, deltas)
+	var t TransportLayerCC
+	if t.Unmarshal(b) == nil {
+		vpReach("accepted")
+		vpC13Check(b, &t, count)
+	}
+	vpReach("end")
+}
